@@ -57,7 +57,12 @@ RULE = ('cases = (record, dt) pairs driven through the public eqsig.im functions
         '(incl. 0, 90, 180 degrees), a Cluster member, or AccSignal(real(fas2signal(A.fa_spectrum))); every measure on D '
         'is judged against D\'s own values, D is corrected in place, A must be bit-for-bit unchanged. The deprecated '
         'AccSignal.generate_cumulative_stats attributes (arias_intensity, cav) are judged by the Arias/CAV final '
-        'clauses. distinct = digest(values, dt, part); non-trivial = record with a non-zero sample.')
+        'clauses. Every defining integral is evaluated with the dt handed to the constructor (recorded by a monitor on '
+        'Signal.__init__), steps incl. 1/k for k = 3, 6, 7, 11, 13, 120, 128, 240, 256, 512. Extreme scales: records at '
+        '1e+-165..1e+-220, gen.special_scale (tiny / huge / 1e-150 vs 1e150 in one record / ripple on a baseline / counts '
+        'above 2**24) with the linear measures (CAV, |a|, |v| integrals, CAVdp) and amplitudes 1e-130..1e130 with all '
+        'measures, float64 / list containers, rescaled so that nothing the linear measures form leaves 1e-295..1e300. '
+        'distinct = digest(values, dt, part); non-trivial = record with a non-zero sample.')
 ASSUMPTIONS = ['NaN-free real records, n >= 1, dt > 0; complex-typed records (raw fas2signal output) are counted, never judged',
                'a record is the sequence of real numbers its container holds: integer containers of any width are '
                'judged against the float64 quadrature of their values; float32 records are judged with the unit '
@@ -72,6 +77,10 @@ ASSUMPTIONS = ['NaN-free real records, n >= 1, dt > 0; complex-typed records (ra
                'otherwise a window maximum within 4 ulp of 0.025 may fall on either side',
                'mutators and reads inside histories are not judged here (an exception in one is an observation); '
                'velocity-based measures are not driven on eqsig.Signal (it has no velocity)',
+               'the time step of a record is the number handed to the Signal/AccSignal constructor; objects made by '
+               'deepcopy are judged with the step they store',
+               'energy-type measures (Arias, ISV, unit kinetic energy) are judged only where squares of the samples and '
+               'velocities are normal doubles (amplitudes within 1e-130..1e130 in the extreme classes)',
                'oracle vf/oracles/quadrature.py is correct (scalar trapezoid / rectangle sums, fsum)']
 RTOL = 1e-10
 EPS32 = float(np.finfo(np.float32).eps)
@@ -244,7 +253,7 @@ def check_quadrature(ctx, key, acc_in, dt, result):
             ref, sumabs_k = Q.unit_kinetic_energy_final(v)
             refs = [ref]
             atol = 8 * eps * sumabs_k + 2 * verr * sumabs_v
-    atol += floor32
+    atol += floor32 + 8 * n * 5e-324          # a few subnormal quanta per term (records at 1e-300)
     okk = np.isfinite(got) and any(abs(got - ref) <= atol + rtol * abs(ref) for ref in refs)
     ctx.check(okk, FINAL_CLAUSE[key], lambda: _wit(key, acc_in, dt, got_final=got, expected=refs, atol=atol, rtol=rtol),
               '%s final value %r, defining quadrature of the record gives %r (n=%d dt=%r dtype=%s%s)'
@@ -669,15 +678,16 @@ def _final(s):
     return float(s[-1]) if s is not None and s.ndim == 1 and s.shape[0] else None
 
 
-def relation(ctx, eqsig, x, dt, kind, alpha=None, k=None, base=None, cont=None):
+def relation(ctx, eqsig, x, dt, kind, alpha=None, k=None, base=None, cont=None, keys=None):
     """Evaluate one trace relation between the execution on the record (given as container `cont`, real values x) and
     the execution on the transformed record."""
     x = np.asarray(x, dtype=float)
     cont_arr = np.array(cont if cont is not None else x)
+    keys = list(keys) if keys is not None else QUAD_KEYS
     wit = lambda **kw: dict({'fn': 'relation', 'kind': kind, 'acc': x, 'acc_base': cont_arr, 'dt': float(dt),
-                             'alpha': alpha, 'k': k}, **kw)
+                             'dt_kind': _dt_kind(dt), 'alpha': alpha, 'k': k, 'keys': keys}, **kw)
     if base is None:
-        base = measure(ctx, eqsig, cont_arr, dt)
+        base = measure(ctx, eqsig, cont_arr, dt, keys=keys)
     floor, eps_base = _prec(cont_arr, x.shape[0])
     under = _underflow(cont_arr, x.shape[0], float(dt))
 
@@ -692,11 +702,11 @@ def relation(ctx, eqsig, x, dt, kind, alpha=None, k=None, base=None, cont=None):
             verr += Q.EPS * float(dt) * float(np.sum(np.abs(rec)))
         sv += len(v) * verr
         return {'isv': 4 * verr * sv * float(dt), 'abs_vel': 2 * verr * len(v) * float(dt), 'cad': 2 * verr * len(v) * float(dt),
-                'uke': 4 * verr * sv + 16 * eps_base * sum(0.5 * t * t for t in v)}
+                'uke': 4 * verr * sv + 16 * eps_base * (sum(0.5 * t * t for t in v) if 'uke' in keys else 0.0)}
     if kind == 'sign':
-        other = measure(ctx, eqsig, -x, dt)
+        other = measure(ctx, eqsig, -x, dt, keys=keys)
         at = vel_atol(x) if floor > RTOL else {}
-        for key in QUAD_KEYS:
+        for key in keys:
             f0, f1 = _final(base[key]), _final(other[key])
             if f0 is None or f1 is None:
                 continue
@@ -704,11 +714,11 @@ def relation(ctx, eqsig, x, dt, kind, alpha=None, k=None, base=None, cont=None):
                       lambda: wit(measure=key, f_x=f0, f_minus_x=f1),
                       '%s final %r for x (%s) but %r for -x' % (FN[key], f0, cont_arr.dtype, f1))
     elif kind in ('scale.pow2', 'scale.random'):
-        other = measure(ctx, eqsig, x * alpha, dt)
+        other = measure(ctx, eqsig, x * alpha, dt, keys=keys)
         exact_rel = kind == 'scale.pow2' and floor <= RTOL      # power-of-two scaling of a float64 record is exact
         rtol = 1e-14 if exact_rel else floor
         at = {} if exact_rel else vel_atol(x * alpha, rounded_input=(kind == 'scale.random'))
-        for key in QUAD_KEYS:
+        for key in keys:
             f0, f1 = _final(base[key]), _final(other[key])
             if f0 is None or f1 is None:
                 continue
@@ -721,9 +731,10 @@ def relation(ctx, eqsig, x, dt, kind, alpha=None, k=None, base=None, cont=None):
             ctx.observe('zero-pad-skipped(record does not end at 0)')
             return
         xp = np.concatenate([cont_arr, np.zeros(k, dtype=cont_arr.dtype)])
-        other = measure(ctx, eqsig, xp, dt, keys=PAD_KEYS)
+        pad_keys = [q for q in PAD_KEYS if q in keys]
+        other = measure(ctx, eqsig, xp, dt, keys=pad_keys)
         n = x.shape[0]
-        for key in PAD_KEYS:
+        for key in pad_keys:
             s0, s1 = base[key], other[key]
             if s0 is None or s1 is None or s0.shape != (n,) or s1.shape != (n + k,):
                 continue
@@ -739,7 +750,8 @@ def relation(ctx, eqsig, x, dt, kind, alpha=None, k=None, base=None, cont=None):
 # ---------------------------------------------------------------------------------------------------- workload
 CAVDP_NICE_DT = [0.1, 0.05, 0.04, 0.025, 0.02, 0.01, 0.005, 0.0025, 0.002]
 CAVDP_EDGE_DT = [1.0, 0.5, 0.25, 0.2, 0.125, 0.001, 0.0005]
-CAVDP_RECIP_K = [49, 93, 99, 49, 93, 99, 98, 103, 107, 161, 186, 196, 198]
+CAVDP_RECIP_K = [49, 93, 99, 49, 93, 99, 98, 103, 107, 161, 186, 196, 198, 3, 7, 120, 128, 256, 512]
+LONG_DECIMAL_K = [3, 7, 120, 128, 256, 512, 240, 6, 11, 13]      # 1/k needs more than six decimals
 FLOOR_FAIL_K = [k for k in range(1, 4097) if int(1.0 / (1.0 / k)) != k]      # 1/(1/k) floors to k-1 (all of them, ~290)
 GATE = Q.GATE_G
 _LEVELS_BELOW = [m / 4096.0 for m in range(0, 100)]      # background levels in g, all < 0.0245
@@ -892,7 +904,16 @@ def cavdp_case(rng, cls=None, long=False):
         x, _ = gen.record(rng, n, allow_const=True)
         m = np.max(np.abs(x))
         e = rng.uniform(-0.5, 1.2) if rng.random() < 0.7 else rng.uniform(-12, 12)
+        v = rng.random()
+        if v < 0.12:
+            e = rng.uniform(165, 220) * (1 if rng.random() < 0.5 else -1)     # squares of samples under/overflow
         x = x * (G * GATE * 10.0 ** e / m) if m > 0 else x
+        if 0.12 <= v < 0.24 and m > 0:
+            x, tag = gen.special_scale(rng, x)
+            top = float(np.max(np.abs(x)))
+            if top > 1e290:
+                x = x * (1e290 / top)
+            cls += tag
     elif cls == 'near-gate-inexact':
         # record in m/s2 whose window maxima lie within a few ulp of 0.025*9.81: a/9.81 is inexact, so the knife-edge
         # rule applies (either side of the gate is accepted for these windows)
@@ -1072,6 +1093,8 @@ def quadrature_case(rng, n=None):
         dt = float(10.0 ** rng.uniform(-9, 3))
     elif u < 0.3:
         dt = gen.awkward_dt(rng, int(rng.integers(2, 13)))
+    elif u < 0.42:
+        dt = 1.0 / LONG_DECIMAL_K[int(rng.integers(len(LONG_DECIMAL_K)))]
     else:
         dt = gen.dt(rng)
     u = rng.random()
@@ -1082,6 +1105,58 @@ def quadrature_case(rng, n=None):
     elif u < 0.13:
         dt = int(rng.choice([1, 2, 5]))
     return x, dt, cls
+
+
+LINEAR_KEYS = ['cav', 'abs_acc', 'abs_vel', 'cad']     # scale-free (degree 1) in the record: judged at every finite scale
+
+
+def extreme_case(rng):
+    """(x, dt, class, keys). Either a record at a scale where a SQUARE or PRODUCT of two samples under/overflows
+    (gen.record(extreme) amplitudes 1e+-165..1e+-220, gen.special_scale): only the linear measures are defined there;
+    or an amplitude anywhere in 1e-130..1e130 with all measures (squares stay normal doubles). The record is rescaled,
+    if necessary, so that nothing the linear measures (and their alpha <= 10 relations) form leaves 1e-295..1e300."""
+    n = int(rng.choice(QUAD_N, p=QUAD_N_P))
+    n = max(n, 2)
+    dt = float(10.0 ** rng.uniform(-3, 1))
+    x, cls = gen.record(rng, n, allow_const=True)
+    x = np.asarray(x, dtype=float)
+    m = float(np.max(np.abs(x)))
+    if m == 0:
+        x = x + 1.0
+        m = 1.0
+    u = rng.random()
+    if u < 0.35:
+        x = x / m * 10.0 ** (rng.uniform(165, 220) * (1 if rng.random() < 0.5 else -1))
+        cls, keys = cls + '/extreme-scale', LINEAR_KEYS
+    elif u < 0.7:
+        x, tag = gen.special_scale(rng, x)
+        cls += tag
+        keys = LINEAR_KEYS if tag in ('-extreme-tiny', '-extreme-huge', '-extreme-range') else QUAD_KEYS
+    else:
+        x = x / m * 10.0 ** rng.uniform(-130, 130)
+        cls, keys = cls + '/wide-scale', QUAD_KEYS
+    span = n * dt
+    log_hi = np.log10(float(np.max(np.abs(x)))) + 2 * np.log10(max(span, 1.0)) + 1.0       # bounds in logs: no overflow here
+    if log_hi > 300:
+        x = x * 10.0 ** (300 - log_hi)
+    log_lo = np.log10(float(np.max(np.abs(x)))) + 2 * np.log10(min(dt, 1.0)) - 1.0
+    if log_lo < -295:
+        x = x * 10.0 ** (-295 - log_lo)
+    return x, dt, cls, keys
+
+
+def extreme_block(ctx, eqsig, rng, c):
+    x, dt, cls, keys = extreme_case(rng)
+    ckind = 'f64' if rng.random() < 0.7 else 'list'       # no float32 / integer containers at these scales
+    cont, xr = to_container(rng, x, ckind)
+    ctx.case(core.digest(xr, dt, ckind, 'extreme'), nontrivial=True, cls='extreme-%s/%s' % (cls, 'linear' if keys is LINEAR_KEYS else 'all'),
+             sample={'fn': 'measures at an extreme scale', 'n': len(xr), 'dt': dt, 'class': cls, 'keys': keys,
+                     'max_abs': float(np.max(np.abs(xr)))})
+    base = measure(ctx, eqsig, cont, dt, keys=keys, kw=(c % 2 == 0))
+    relation(ctx, eqsig, xr, dt, 'sign', base=base, cont=cont, keys=keys)
+    relation(ctx, eqsig, xr, dt, 'scale.pow2', alpha=float(rng.choice([-4.0, -2.0, -0.5, 0.25, 2.0, 4.0])), base=base, cont=cont, keys=keys)
+    relation(ctx, eqsig, xr, dt, 'scale.random', alpha=float(rng.choice([-1.0, 1.0]) * 10.0 ** rng.uniform(-1, 1)), base=base,
+             cont=cont, keys=keys)
 
 
 def quad_block(ctx, eqsig, rng, x, dt, cls, ckind, c):
@@ -1122,6 +1197,7 @@ def run_shard(ctx):
     n_twin = (240 if quick else 4800) // ctx.nshards
     n_b2b = (240 if quick else 4800) // ctx.nshards
     n_derived = (480 if quick else 9600) // ctx.nshards
+    n_extreme = (320 if quick else 6400) // ctx.nshards
     n_long = 1 if quick else 4
     # -- CAVdp part -------------------------------------------------------------------------------------------
     for c in range(n_cavdp + 1):
@@ -1182,6 +1258,8 @@ def run_shard(ctx):
     for c in range(n_long):
         x, dt, cls = quadrature_case(rng, n=int(rng.choice([2 ** 16 + 1, 2 ** 16 + 1000, 100003])))
         quad_block(ctx, eqsig, rng, x, dt, cls + '+long', ['f64', 'f32', 'i16'][int(rng.choice(3, p=[.6, .2, .2]))], c + 2)
+    for c in range(n_extreme):
+        extreme_block(ctx, eqsig, rng, c)
     for c in range(n_quad):
         x, dt, cls = quadrature_case(rng)
         quad_block(ctx, eqsig, rng, x, dt, cls, CONTAINERS[int(rng.choice(len(CONTAINERS), p=CONTAINER_P))], c)
@@ -1200,8 +1278,10 @@ def replay(w):
     install(ctx)
     sc = w.get('scenario')
     if w.get('fn') == 'relation':
-        relation(ctx, eqsig, np.asarray(w['acc']), float(w['dt']), w['kind'], alpha=w.get('alpha'), k=w.get('k'),
-                 cont=np.asarray(w['acc_base']) if w.get('acc_base') is not None else None)
+        relation(ctx, eqsig, np.asarray(w['acc']), _mk_dt(w['dt'], w.get('dt_kind', 'float')), w['kind'], alpha=w.get('alpha'),
+                 k=w.get('k'), cont=np.asarray(w['acc_base']) if w.get('acc_base') is not None else None, keys=w.get('keys'))
+    elif w.get('fn') == 'constructor':
+        getattr(eqsig, w.get('sigcls', 'AccSignal'))(np.asarray(w['acc']), _mk_dt(w['dt'], w.get('dt_kind', 'float')))
     elif sc:
         # the case is the whole scenario up to and including the judged call
         dt = _mk_dt(sc['dt'], sc.get('dt_kind', 'float'))
